@@ -36,6 +36,7 @@ func (m *monC01) OnStep(r *Runner, st *Step) {
 	// rewards withdrawn but not forwarded, per validator, with the precondition of the open finding checked on the
 	// pre-state: the validator has no alliance delegator shares, or no started asset staked on it carries weight
 	_, residues := settlementsOf(r, st.Events)
+	returned := returnedRewards(r, st.Events) // nobody to credit: back to the fee collector
 	residueExcused := true
 	for _, rs := range residues {
 		if !residuePrecondition(st.Pre, rs.val) && !residuePrecondition(st.Post, rs.val) {
@@ -50,7 +51,7 @@ func (m *monC01) OnStep(r *Runner, st *Step) {
 		// reward coins of this denom withdrawn from x/distribution into the custody account and not
 		// forwarded to the rewards pool in the same step
 		in := netTransfer(fl, r.W.DistrAddr.String(), r.W.ModuleAddr.String(), d)
-		fwd := netTransfer(fl, r.W.ModuleAddr.String(), r.W.RewardsAddr.String(), d)
+		fwd := netTransfer(fl, r.W.ModuleAddr.String(), r.W.RewardsAddr.String(), d).Add(returned.AmountOf(d))
 		if in.GT(fwd) {
 			cur, ok := m.residue[d]
 			if !ok {
